@@ -245,6 +245,9 @@ func checkC13(w *World, r *Recorder) propInfo {
 	// profile (the GetProfile cells, C07-P4; K3 compares classes per outcome
 	// but not which values fall into which outcome)
 	importRules(w, r, checkC07, "C13-K6", func(o *Oblig) bool { return o.Rule == "C07-P4" })
+	// K7: "null entry" (wrong syntax) is reported exactly for a nil element; an
+	// allocated component without fields lacks mandatory fields instead
+	ruleNullEntryIsNilTest(w, r, "C13-K7")
 
 	r.Floor("C13-K1", 11)
 	r.Floor("C13-K2", 40)
